@@ -276,6 +276,7 @@ class Walker(object):
         self.done = []
         self.keep = keep
         self.exits = []
+        self.trys = []       # per enclosing try: states at raising points
 
     def run(self, env=None):
         p = Path()
@@ -330,8 +331,30 @@ class Walker(object):
                 raise TooManyPaths(getattr(self.fnode, 'name', '?'))
         return paths
 
+    def _may_raise_here(self, st):
+        if isinstance(st, (ast.If, ast.While)):
+            probe = st.test
+        elif isinstance(st, (ast.For, ast.AsyncFor)):
+            probe = st.iter
+        elif isinstance(st, (ast.With, ast.AsyncWith)):
+            probe = ast.Tuple(elts=[i.context_expr for i in st.items],
+                              ctx=ast.Load())
+        elif isinstance(st, (ast.Try, ast.FunctionDef, ast.AsyncFunctionDef,
+                             ast.ClassDef)):
+            return False
+        else:
+            probe = st
+        return isinstance(st, ast.Raise) or any(isinstance(
+            n, (ast.Call, ast.Subscript, ast.Attribute, ast.BinOp))
+            for n in ast.walk(probe))
+
     def stmt(self, st, paths):
         out = []
+        if self.trys and self._may_raise_here(st):
+            # the statement may raise: the state before it is a state in
+            # which the handlers of the enclosing try can be entered
+            for p in paths:
+                self.trys[-1].append(p.fork())
         for p in paths:
             p.stmts.append(st)
             p.envs[id(st)] = p.env
@@ -424,24 +447,40 @@ class Walker(object):
             return self.block(st.body, paths)
         if isinstance(st, ast.Try):
             for p in paths:
-                entry = p.fork()
+                self.trys.append([])
                 body = self.block(st.body, [p])
+                raised = self.trys.pop()
+                # what raises inside the body may also leave this try: it
+                # is a raising point of the enclosing one
+                if self.trys and not any(
+                        h.type is None or src(h.type) in (
+                            'Exception', 'BaseException')
+                        for h in st.handlers):
+                    self.trys[-1].extend(q.fork() for q in raised)
                 body = self.block(st.orelse, body) if st.orelse else body
                 res = list(body)
+                # drop states that cannot be told apart
+                uniq, seen = [], set()
+                for q in raised:
+                    k = (id(q.env), len(q.conds), len(q.stores),
+                         len(q.stmts))
+                    if k not in seen:
+                        seen.add(k)
+                        uniq.append(q)
                 for h in st.handlers:
-                    q = entry.fork()
-                    # anything bound in the body is unknown in the handler
-                    env = dict(q.env)
-                    for nm in _names_bound(st.body):
-                        env[nm] = None
-                    if h.name:
-                        env[h.name] = None
-                    q.env = env
-                    q.stmts.append(h)
-                    res.extend(self.block(h.body, [q]))
+                    for q0 in uniq:
+                        q = q0.fork()
+                        if h.name:
+                            env = dict(q.env)
+                            env[h.name] = None
+                            q.env = env
+                        q.stmts.append(h)
+                        res.extend(self.block(h.body, [q]))
                 if st.finalbody:
                     res = self.block(st.finalbody, res)
                 out.extend(res)
+                if len(out) + len(self.done) > MAX_PATHS:
+                    raise TooManyPaths(getattr(self.fnode, 'name', '?'))
             return out
         if isinstance(st, (ast.FunctionDef, ast.AsyncFunctionDef,
                            ast.ClassDef)):
